@@ -1,8 +1,148 @@
-import Cirbo.Model.Gen
-/-! # C07 (placeholder until the theorems are in)
--- OBLIGATION: c07_placeholder
+import Cirbo.Proofs.GenWeighted
+import Cirbo.Proofs.GenBasis
+/-!
+# C07 — Summation generators compute exact sums within the promised basis
+
+-- OBLIGATION: c07_generators_only_add_fresh_gates
+-- OBLIGATION: c07_tt_table_is_correct
+-- OBLIGATION: c07_sum_n_bits
+-- OBLIGATION: c07_sum_n_bits_easy
+-- OBLIGATION: c07_sum_two_numbers
+-- OBLIGATION: c07_sum_two_numbers_with_shift
+-- OBLIGATION: c07_weighted_sum
+-- OBLIGATION: c07_weighted_sum_naive
+-- OBLIGATION: c07_aig_basis_sum_n_bits
+-- OBLIGATION: c07_aig_basis_weighted
+-- PARTIAL: the documented gate-count bounds (4.5n-2m, 7n-3m, 5n-2m) and the value of add_sum_pow2_m1 are not proved; both are checked on the real generators by the search on every run (and add_sum_pow2_m1 is modelled and compared gate for gate). Termination within the model fuel (no "fuel" failure) is by correspondence. XAIG membership is immediate (every type of the regenerated table is a binary gate type: ttType_ok); weights are naturals in the model.
 -/
 namespace Cirbo
-theorem c07_placeholder : True := trivial
-#print axioms c07_placeholder
+
+/-- every generator is a `Prog`; running any `Prog` on a host satisfying the C02 invariant keeps the
+invariant, the inputs and the blocks, appends only non-INPUT gates of accepted arity, appends
+outputs only through `mark_as_output`, and every valuation of the host extends to the result under
+the same input assignment — i.e. **pre-existing gates keep their function**. -/
+theorem c07_generators_only_add_fresh_gates {α} (p : Prog α) {st st' : GSt} {a : α}
+    (h : p.run st = .ok (a, st')) (hw : WFS st.c) : GenFrame st.c st'.c := run_frame p h hw
+
+/-- the regenerated `binary_tt_to_type` table: each 4-bit string denotes a binary gate type whose
+Boolean function is that truth table -/
+theorem c07_tt_table_is_correct {a b c d : Bool} {ty : GateType} (h : Gen.ttType a b c d = some ty) (x y : Bool) :
+    tyOk ty 2 = true ∧ bfun ty [x, y] = some (ttApply (a, b, c, d) x y) := ⟨ttType_ok h, ttType_sem h x y⟩
+
+/-- running a program on a host: every valuation of the host extends to one of the result that
+agrees on the host and satisfies the program's gate equations -/
+theorem run_total {α} {p : Prog α} {st st' : GSt} {a : α} (h : p.run st = .ok (a, st')) (hw : WFS st.c)
+    {b v : Label → Bool} (hv : IsValB st.c b v) :
+    ∃ v', IsValB st'.c b v' ∧ (∀ l ∈ st.c.labels, v' l = v l) ∧ Sem p v' a := by
+  obtain ⟨v', hv', hag⟩ := (run_frame p h hw).ext b v hv
+  exact ⟨v', hv', hag, run_sound p h b v' hv'⟩
+
+theorem cnt_congr {v v' : Label → Bool} {ls : List Label} (h : ∀ l ∈ ls, v' l = v l) : cnt v' ls = cnt v ls := by
+  unfold cnt; congr 1; apply List.map_congr_left; intro l hl; simp [bv, h l hl]
+
+theorem valLE_congr {v v' : Label → Bool} {ls : List Label} (h : ∀ l ∈ ls, v' l = v l) : valLE v' ls = valLE v ls := by
+  induction ls with
+  | nil => rfl
+  | cons x r ih =>
+    simp only [valLE, bv, h x (by simp)]
+    rw [ih (fun l hl => h l (by simp [hl]))]
+
+theorem wsum_congr {v v' : Label → Bool} {ls : List (Nat × Label)} (h : ∀ p ∈ ls, v' p.2 = v p.2) : wsum v' ls = wsum v ls := by
+  unfold wsum; congr 1; apply List.map_congr_left; intro p hp; simp [bv, h p hp]
+
+theorem mem_revIf {l : List Label} {be : Bool} {x : Label} : x ∈ revIf l be ↔ x ∈ l := by
+  cases be <;> simp [revIf]
+
+/-- **`add_sum_n_bits`** on arbitrary gates of a host, any basis spelling, both endiannesses: the
+host keeps its function and the returned bits encode the number of true operand bits. -/
+theorem c07_sum_n_bits {st st' : GSt} {ins out : List Label} {basis : BasisArg} {be : Bool}
+    (h : (addSumNBits ins basis be).run st = .ok (out, st')) (hw : WFS st.c) (hin : ∀ l ∈ ins, l ∈ st.c.labels)
+    {b v : Label → Bool} (hv : IsValB st.c b v) :
+    ∃ v', IsValB st'.c b v' ∧ (∀ l ∈ st.c.labels, v' l = v l) ∧ valLE v' (revIf out be) = cnt v ins := by
+  obtain ⟨v', h1, h2, h3⟩ := run_total h hw hv
+  exact ⟨v', h1, h2, by rw [sem_addSumNBits h3, cnt_congr (fun l hl => h2 l (hin l hl))]⟩
+
+theorem c07_sum_n_bits_easy {st st' : GSt} {ins out : List Label} {be : Bool}
+    (h : (addSumNBitsEasy ins be).run st = .ok (out, st')) (hw : WFS st.c) (hin : ∀ l ∈ ins, l ∈ st.c.labels)
+    {b v : Label → Bool} (hv : IsValB st.c b v) :
+    ∃ v', IsValB st'.c b v' ∧ (∀ l ∈ st.c.labels, v' l = v l) ∧ valLE v' (revIf out be) = cnt v ins := by
+  obtain ⟨v', h1, h2, h3⟩ := run_total h hw hv
+  exact ⟨v', h1, h2, by rw [sem_addSumNBitsEasy h3, cnt_congr (fun l hl => h2 l (hin l hl))]⟩
+
+/-- **`add_sum_two_numbers`**: the result is `a + b` (numbers read in the requested endianness) -/
+theorem c07_sum_two_numbers {st st' : GSt} {x y out : List Label} {be : Bool}
+    (h : (addSumTwoNumbers x y be).run st = .ok (out, st')) (hw : WFS st.c)
+    (hx : ∀ l ∈ x, l ∈ st.c.labels) (hy : ∀ l ∈ y, l ∈ st.c.labels)
+    {b v : Label → Bool} (hv : IsValB st.c b v) :
+    ∃ v', IsValB st'.c b v' ∧ (∀ l ∈ st.c.labels, v' l = v l) ∧
+      valLE v' (revIf out be) = valLE v (revIf x be) + valLE v (revIf y be) := by
+  obtain ⟨v', h1, h2, h3⟩ := run_total h hw hv
+  refine ⟨v', h1, h2, ?_⟩
+  rw [sem_addSumTwoNumbers h3, valLE_congr (fun l hl => h2 l (hx l (mem_revIf.mp hl))),
+    valLE_congr (fun l hl => h2 l (hy l (mem_revIf.mp hl)))]
+
+/-- **`add_sum_two_numbers_with_shift`** for every shift (also beyond `len(a)`): `a + b·2^shift` -/
+theorem c07_sum_two_numbers_with_shift {st st' : GSt} {x y out : List Label} {be : Bool} {shift : Nat}
+    (h : (addSumTwoNumbersWithShift shift x y be).run st = .ok (out, st')) (hw : WFS st.c)
+    (hx : ∀ l ∈ x, l ∈ st.c.labels) (hy : ∀ l ∈ y, l ∈ st.c.labels)
+    {b v : Label → Bool} (hv : IsValB st.c b v) :
+    ∃ v', IsValB st'.c b v' ∧ (∀ l ∈ st.c.labels, v' l = v l) ∧
+      valLE v' (revIf out be) = valLE v (revIf x be) + 2 ^ shift * valLE v (revIf y be) := by
+  obtain ⟨v', h1, h2, h3⟩ := run_total h hw hv
+  refine ⟨v', h1, h2, ?_⟩
+  rw [sem_addSumTwoNumbersWithShift h3, valLE_congr (fun l hl => h2 l (hx l (mem_revIf.mp hl))),
+    valLE_congr (fun l hl => h2 l (hy l (mem_revIf.mp hl)))]
+
+/-- **`add_sum_n_weighted_bits`**: `Σ out·2^level = Σ in·2^weight` with pairwise distinct (strictly
+increasing) output levels, for every weight vector, basis spelling and host -/
+theorem c07_weighted_sum {st st' : GSt} {ins out : List (Nat × Label)} {basis : BasisArg}
+    (h : (addSumWeighted ins basis).run st = .ok (out, st')) (hw : WFS st.c)
+    (hin : ∀ p ∈ ins, p.2 ∈ st.c.labels) {b v : Label → Bool} (hv : IsValB st.c b v) :
+    (out.map (·.1)).Pairwise (· < ·) ∧
+    ∃ v', IsValB st'.c b v' ∧ (∀ l ∈ st.c.labels, v' l = v l) ∧ wsum v' out = wsum v ins := by
+  obtain ⟨v', h1, h2, h3⟩ := run_total h hw hv
+  obtain ⟨e, d⟩ := sem_addSumWeighted h3
+  exact ⟨d, v', h1, h2, by rw [e, wsum_congr (fun p hp => h2 _ (hin p hp))]⟩
+
+theorem c07_weighted_sum_naive {st st' : GSt} {ins out : List (Nat × Label)} {basis : BasisArg}
+    (h : (addSumWeightedNaive ins basis).run st = .ok (out, st')) (hw : WFS st.c)
+    (hin : ∀ p ∈ ins, p.2 ∈ st.c.labels) {b v : Label → Bool} (hv : IsValB st.c b v) :
+    (out.map (·.1)).Pairwise (· < ·) ∧
+    ∃ v', IsValB st'.c b v' ∧ (∀ l ∈ st.c.labels, v' l = v l) ∧ wsum v' out = wsum v ins := by
+  obtain ⟨v', h1, h2, h3⟩ := run_total h hw hv
+  obtain ⟨e, d⟩ := sem_addSumWeightedNaive h3
+  exact ⟨d, v', h1, h2, by rw [e, wsum_congr (fun p hp => h2 _ (hin p hp))]⟩
+
+/-- with the AIG basis — enum member or any spelling of the string — no XOR/NXOR gate is added -/
+theorem c07_aig_basis_sum_n_bits {st st' : GSt} {ins out : List Label} {basis : BasisArg} {be : Bool}
+    (hb : basis.resolve = .ok .aig) (h : (addSumNBits ins basis be).run st = .ok (out, st')) :
+    ∃ new, st'.c.gates = st.c.gates ++ new ∧ ∀ g ∈ new, g.ty ≠ .XOR ∧ g.ty ≠ .NXOR :=
+  run_emits (emits_addSumNBits_aig hb) h
+
+theorem c07_aig_basis_weighted {st st' : GSt} {ins out : List (Nat × Label)} {basis : BasisArg}
+    (hb : basis.resolve = .ok .aig) :
+    ((addSumWeighted ins basis).run st = .ok (out, st') →
+      ∃ new, st'.c.gates = st.c.gates ++ new ∧ ∀ g ∈ new, g.ty ≠ .XOR ∧ g.ty ≠ .NXOR) ∧
+    ((addSumWeightedNaive ins basis).run st = .ok (out, st') →
+      ∃ new, st'.c.gates = st.c.gates ++ new ∧ ∀ g ∈ new, g.ty ≠ .XOR ∧ g.ty ≠ .NXOR) :=
+  ⟨fun h => run_emits (emits_addSumWeighted_aig hb).1 h, fun h => run_emits (emits_addSumWeighted_aig hb).2 h⟩
+
+/-! Non-vacuity: a run that succeeds, on a host built through the C02 operations -/
+def c07Host : R Circuit := runOps Circuit.empty [.addInputs ["a", "b", "c", "d", "e"]]
+example : ((c07Host >>= fun c => (addSumNBits ["a", "b", "c", "d", "e"] (.str "aig") false).run ⟨c, 0⟩).toOption.map
+    fun r => (r.1.length, r.2.c.gates.length)) = some (3, 22) := by decide
+example : ((c07Host >>= fun c => (addSumWeighted [(0, "a"), (0, "b"), (1, "c"), (1, "d"), (3, "e")] (.enum .xaig)).run ⟨c, 0⟩).toOption.map
+    fun r => r.1.map (·.1)) = some [0, 1, 2, 3] := by decide
+
+#print axioms c07_generators_only_add_fresh_gates
+#print axioms c07_tt_table_is_correct
+#print axioms c07_sum_n_bits
+#print axioms c07_sum_n_bits_easy
+#print axioms c07_sum_two_numbers
+#print axioms c07_sum_two_numbers_with_shift
+#print axioms c07_weighted_sum
+#print axioms c07_weighted_sum_naive
+#print axioms c07_aig_basis_sum_n_bits
+#print axioms c07_aig_basis_weighted
+
 end Cirbo
